@@ -172,6 +172,28 @@ def Dinic.run (d : Dinic) (fuel : Nat) : Option Dinic :=
     | none => none
     | some (d', flow) => some { d' with maxFlow := flow, finished := true }
 
+/-- `run()` called on an object in ANY state - in particular a second time on a finished solver, or after an
+    aborted bounded run (fix D24: `let mut flow = self.max_flow`).  `parents.resize(n, 0)` /
+    `level.resize(n, usize::MAX)` keep the old contents when the vectors already have `n` entries; `bfs` and
+    `dfs` overwrite both completely before reading them (they use only the sizes), so the contents written here
+    are unobservable and the model fills in the fresh values.  `Dinic.run` is the special case `maxFlow = 0`
+    (`run_eq_runAgain`). -/
+def Dinic.runAgain (d : Dinic) (fuel : Nat) : Option Dinic :=
+  let n := d.g.numNodes
+  if d.source ≥ n ∨ d.target ≥ n then none
+  else
+    let d0 := { d with parents := Array.replicate n 0, level := Array.replicate n INV }
+    match dinicLoop fuel d0 d.maxFlow with
+    | none => none
+    | some (d', flow) => some { d' with maxFlow := flow, finished := true }
+
+/-- `k` further calls of `run()` on the same object -/
+def Dinic.runAgainN (fuel : Nat) : Nat → Dinic → Option Dinic
+  | 0, d => some d
+  | k + 1, d => match d.runAgain fuel with
+    | none => none
+    | some d' => Dinic.runAgainN fuel k d'
+
 def Dinic.maxFlow? (d : Dinic) : Out Int := maxFlowOut d.finished d.maxFlow
 def Dinic.assignment? (d : Dinic) (source : Nat) : Out (Array Bool) := assignmentOut d.g d.finished source
 
